@@ -18,4 +18,20 @@ PROPS = {
         "rule": "cases: toml-test corpus files, exhaustive slot x byte-class sweep, grammar-rendered documents, 1-3 byte/token mutations of rendered and corpus documents, near-miss number/date lexemes; each judged by R and by all five document entry points. distinct = content hash of the text; non-trivial = R-valid with >= 2 statements or >= 4 distinct ABNF productions, or R-invalid and produced by mutation/sweep (i.e. close to a valid text). U1 and limit texts are counted separately and not judged for validity",
         "assumptions": COMMON + ["texts in class U1 (DESIGN 3.3) and beyond documented limits (3.4) are outside the validity claim; entry-point agreement is still checked on them"],
     },
+    "C02": {
+        "claimed": True,
+        "technique": "reference-model monitor: constructive expected tree from the document generator + independent reference decoder, compared with five observers of the real decoders",
+        "level_text": "for every accepted text five observers of the real code (DocumentMut walk, ImDocument walk, toml::from_str into Table and Value, toml_edit::de) are converted to plain trees and compared, scalar by scalar and key order included, with the tree the generator built the text from and with the reference decoder's tree; exhaustive sub-sweeps cover \\uXXXX for every BMP scalar, continuation sequences, closing-quote cases, underscore placements, fractional-second lengths; float halfway literals are judged by exact big-integer rounding",
+        "level_note": "trusted: reference decoder R and its big-integer float rounding (cross-checked with the constructive oracle on every rendered document; disagreement is INCONCLUSIVE). Latitude per DESIGN 3.5 only",
+        "rule": "cases: corpus, exhaustive escape/continuation/quote/underscore/secfrac sweeps, halfway float literals, rendered documents (expected tree known by construction), mutation survivors. distinct = text hash; non-trivial = accepted text containing at least one scalar",
+        "assumptions": COMMON + ["CR LF inside multi-line strings may decode as LF or CR LF (per document consistently); NaN compared by NaN-ness; super-table-after-sub-table may sit at either of two positions"],
+    },
+    "C03": {
+        "claimed": True,
+        "technique": "reference-model monitor: normal form N(t) computed from the reference lexer, compared byte-for-byte with parse-then-print of the real code; relational monitors for validity, data, comments and fixed point of the print",
+        "level_text": "every valid workload text is parsed and printed by the real code; the print must equal the normal form computed independently from R's token stream (BOM dropped, CR of CR LF dropped outside multi-line strings, final newline added) whenever dotted prefixes are adjacent and table names are stably spelled, and in all cases must be valid, decode to the same data, keep every comment and be a fixed point",
+        "level_note": "trusted: R's lexer for N(t), the stable-spelling and adjacency predicates. One known deviation (prefix-key-respelling, D12) is matched by an exact signature: difference confined to re-spelled key-path regions that decode to the same keys",
+        "rule": "cases: corpus, rendered documents with unique comments/whitespace in every trivia slot, the same with LF->CRLF on random line ends / BOM / dropped final newline, mutation survivors. distinct = text hash; non-trivial = valid text with >= 2 statements on which exact equality with N(t) was demanded",
+        "assumptions": COMMON + ["exact equality is demanded only when keys sharing a dotted prefix are adjacent (the property's own precondition), decided by R"],
+    },
 }
